@@ -191,6 +191,39 @@ def judge_allpairs_angle(Rs, delta, tol, pairs):
     return msgs, exists
 
 
+def judge_pairs(poses, delta, unit, rel_tol, all_pairs, got):
+    """predicate oracle for a list of pairs on arbitrary poses
+    -> (msgs, a pair exists)"""
+    n = len(poses)
+    msgs = basic(got, n)
+    if unit == "f":
+        m, exists = judge_frames(n, int(delta), all_pairs, got)
+    elif unit == "m":
+        ps = [p[:3, 3] for p in poses]
+        dist = [0.0]
+        for k in range(n - 1):
+            dist.append(dist[-1] + float(np.linalg.norm(ps[k + 1] - ps[k])))
+        if all_pairs:
+            m, exists = judge_allpairs_path(dist, n, delta, delta * rel_tol,
+                                            got)
+        else:
+            m, exists = judge_chain(lambda a, b: dist[b] - dist[a], n, delta,
+                                    got, False)
+    else:
+        Rs = [p[:3, :3] for p in poses]
+        d = math.radians(delta) if unit == "d" else delta
+        if all_pairs:
+            m, exists = judge_allpairs_angle(Rs, d, d * rel_tol, got)
+        else:
+            ang = [geom.rot_angle(Rs[k].T @ Rs[k + 1]) for k in range(n - 1)]
+            cum = [0.0]
+            for a in ang:
+                cum.append(cum[-1] + a)
+            m, exists = judge_chain(lambda a, b: cum[b] - cum[a], n, d, got,
+                                    True)
+    return msgs + m, exists
+
+
 def run_case(case):
     kind = case["kind"]
     delta, unit, allp, rel_tol = (case["delta"], case["unit"],
